@@ -69,7 +69,10 @@ def s_value(tier):
     # other) and bodies whose checksum is 000000
     zero = st.deferred(lambda: _frames(tier))
     zero_body = st.deferred(lambda: zero_crc_frames(tier)).map(lambda f: f[:-3])
-    return st.one_of(rnd, rnd, const, zero, zero_body).map(lambda b: {"data": b.hex()})
+    # frame-shaped strings that are NOT codewords: preamble, a length field that agrees with the length, and a tail
+    # of 000000 / FFFFFF / something else where the checksum would go ("every byte string" has no special shapes)
+    shaped = st.builds(lambda f, t: f[:-3] + t, zero, st.one_of(st.sampled_from([b"\0\0\0", b"\0\0\0", b"\xff\xff\xff", b"\0\0\x01"]), st.binary(min_size=3, max_size=3)))
+    return st.one_of(rnd, rnd, const, zero, zero_body, shaped).map(lambda b: {"data": b.hex()})
 
 
 def e_value(tier, shard, nshards):
@@ -174,6 +177,8 @@ def o_detect(case):
             assert pos[0] >= nbits - 24
         if kind == "header":
             assert pos[-1] < 16
+        if kind == "header-coincidence":
+            assert 8 <= pos[0] and pos[-1] <= 23 and len(pos) <= 3
         cls = [kind] + ([] if val == 1 and val is not True else ["validate-flag-word"]) + (["zero-crc-frame"] if frame[-3:] == b"\0\0\0" else []) + ["in-header" if pos[0] < 24 else ("in-crc" if pos[-1] >= nbits - 24 else "in-payload")]
     return Res(nontrivial=nt, classes=cls, evals=evals, digests=digs if cnt is None else None, count=cnt)
 
@@ -250,7 +255,37 @@ def _frames(tier):
 
 
 @st.composite
+def coincidence_cases(draw, tier):
+    """a valid frame and damage confined to the 16 header bits behind the preamble (1-3 flipped bits: a burst of at
+    most 16 bits), where the frame's own trailer has been CHOSEN to equal what a validator gets if it lets the
+    damaged header decide which bytes the checksum covers: (a) the CRC of the damaged header plus as many payload
+    bytes as the damaged length field announces, (b) the remainder of the whole damaged buffer, trailer included
+    (= the syndrome of the error pattern). By chance either coincidence has probability 2^-24; the damage is
+    guaranteed detectable all the same, because the remainder of the whole damaged byte string is not zero."""
+    pre = draw(st.one_of(gen.unknown_payloads("small"), gen.any_message("small").map(lambda c: bytes.fromhex(c["payload"]))))
+    pre = pre[:1000]
+    n = len(pre) + 3
+    k = draw(st.sampled_from([1, 1, 1, 2, 3]))
+    pos = sorted(draw(st.lists(st.integers(8, 23), min_size=k, max_size=k, unique=True)))
+    hdr = (n & 0xFFFF) ^ sum(1 << (23 - p) for p in pos)
+    size2 = hdr & 0x3FF
+    variant = draw(st.sampled_from(["prefix", "prefix", "syndrome"]))
+    if variant == "prefix" and size2 <= len(pre):
+        t = framing.crc_table(bytes([0xD3, hdr >> 8, hdr & 0xFF]) + pre[:size2])
+    else:
+        variant = "syndrome"
+        t = framing.crc_table(framing.flip_bits(bytes(n + 6), pos))
+    f = framing.frame_with_trailer(pre, t.to_bytes(3, "big"))
+    assert framing.frame_problem(f) is None and framing.frame_problem(framing.flip_bits(f, pos)) is not None
+    return {"frame": f.hex(), "mode": "explicit", "kind": "header-coincidence", "positions": pos, "variant": variant}
+
+
+@st.composite
 def s_detect(draw, tier):
+    if draw(st.integers(0, 7)) == 0:
+        case = draw(coincidence_cases(tier))
+        case["val"] = 1
+        return case
     case = draw(_s_detect(tier))
     case["val"] = draw(st.sampled_from([1, 1, 1, True, 3, 5, 0xFF, -1, 0x7FFFFFFF]))
     return case
@@ -395,7 +430,7 @@ def s_cold(draw, tier):
 
 SUBS = [
     Sub("crc_value", o_value, strategy=s_value, enum=e_value, examples=(250, 6000), rule="data length > 6", need={"len1029": 1, "len0": 1}),
-    Sub("detect_patterns", o_detect, strategy=s_detect, examples=(250, 8000), rule="frame length > 6; distinct (frame, positions)", need={"pair": 1, "odd": 1, "burst": 1, "lower-length": 1, "zero-crc-frame": 1, "trailer": 1}),
+    Sub("detect_patterns", o_detect, strategy=s_detect, examples=(250, 8000), rule="frame length > 6; distinct (frame, positions)", need={"pair": 1, "odd": 1, "burst": 1, "lower-length": 1, "zero-crc-frame": 1, "trailer": 1, "header-coincidence": 20}),
     Sub(
         "detect_sweeps",
         o_detect,
